@@ -295,11 +295,22 @@ Fixpoint take_from (ts : list bvterm) (insts : list (list bvterm)) : option (lis
       else option_map (cons i) (take_from ts rest)
     end
   end.
+(* a term without any variable does not say which fields it came from (two constants of equal value look alike): only terms
+   with a variable are located *)
+Fixpoint has_var (t : bvterm) : bool :=
+  match t with
+  | BVar _ _ => true
+  | BConst _ _ => false
+  | BOp2 _ a b => has_var a || has_var b
+  | BNot a | BSext a _ | BUext a _ | BSlice a _ _ => has_var a
+  | BCond c a b => has_var c || has_var a || has_var b
+  end.
 Definition set_terms (c : scase) (r : rset) : list bvterm :=
-  flat_map (fun k => match nth_error (sc_hard c) k with
+  filter has_var
+  (flat_map (fun k => match nth_error (sc_hard c) k with
                      | Some s => if is_soft s then [] else match lower_s (sc_G c) (sc_B c) false s with Some t => [t] | None => [] end
                      | None => []
-                     end) (rs_stmts r).
+                     end) (rs_stmts r)).
 Definition partition_ok (c : scase) (insts : list (list bvterm)) : bool :=
   let sets := build (map s_refs (sc_hard c)) in
   let failed := sc_outcome c =? 1 in
